@@ -9,6 +9,9 @@ import glob, json, os, shutil
 from lib import core, runner, sqlutil as U
 
 OPTS = {"block": 64, "rowset": 1 << 20}
+# the base database is written with a tiny row-set budget, so that the two row-sets of the victim table are NOT merged by
+# the compaction pass that runs at shutdown: the corrupted copies (opened with OPTS) still have two row-sets to compact
+BUILD_OPTS = {"block": 64, "rowset": 16}
 SETUP = [
     "create table a(k int primary key, s varchar, v int)",
     "create table b(k int, w int)",
@@ -23,7 +26,7 @@ SCRATCH = os.environ.get("RLV_SCRATCH", "/dev/shm")
 
 
 def build_base():
-    r = runner.run_many("sql", [{"id": "base", "engine": "disk", "opts": OPTS, "keep": True,
+    r = runner.run_many("sql", [{"id": "base", "engine": "disk", "opts": BUILD_OPTS, "keep": True,
                                  "steps": [{"sql": s} for s in SETUP] + [{"sql": Q_A}, {"sql": Q_A2}, {"sql": Q_B}]}])[0]
     res = r["results"]
     if any(U.status(x) != "rows" for x in res):
@@ -66,7 +69,7 @@ def apply(base, dst, c):
 
 def run(tier, seed):
     chk = core.Check("C18", tier, "fault_enumeration",
-                     "every *.col/*.idx file of the victim table (3 columns x 2 row-sets, several 64-byte blocks each, CRC32) x every byte x [bit flip"
+                     "every *.col/*.idx file of the victim table (3 columns x 2 uncompacted row-sets, several 64-byte blocks each, CRC32) x every byte x [bit flip"
                      + (" (all 8 bits)" if tier == "thorough" else " (one rotating bit)") + ", 0x00, 0xFF] + every truncation length; two query sequences per corruption "
                      "(read / repeated read / other table; compaction first); a case = (file, kind, offset, value, sequence); "
                      "non-trivial = every case (each changes stored bytes)", seed)
